@@ -46,6 +46,8 @@ def run(tier):
              'monitors': mon},
             {'label': 'exotic-ids', 'harness': HStory(pool=gen.EXOTIC_IDS, cap=4, max_list=2, layouts=('before',)), 'monitors': mon},
         ]
+    parts.append({'label': 'pretty-printed-running-orders', 'harness': HStory(pool=4, cap=3, max_list=2, pretty_states=True, pretty_msgs=True, layouts=('before', 'between'), nmeta=2),
+                  'monitors': mon, 'opts': {'max_depth': 0}})
     parts.append(mixed_part(tier, mon))
     parts.append(live_part(tier, mon, spec.STORY_KINDS if 'c01' == 'c01' else spec.ITEM_KINDS))
     return runner.graph_check(
